@@ -101,6 +101,8 @@ func verif_contract_Session_ICMP4SendEchoRequest(h *Session, srcAddr Addr, dstAd
 		vEnsures(spec_ip4_at(w, 26) == srcAddr.IP && spec_ip4_at(w, 30) == dstAddr.IP)
 		vEnsures(w[6] == h.NICInfo.HostAddr4.MAC[0] && w[7] == h.NICInfo.HostAddr4.MAC[1] && w[8] == h.NICInfo.HostAddr4.MAC[2] &&
 			w[9] == h.NICInfo.HostAddr4.MAC[3] && w[10] == h.NICInfo.HostAddr4.MAC[4] && w[11] == h.NICInfo.HostAddr4.MAC[5])
+	} else {
+		vEnsures(vWireCount() == n0 || vWireCount() == n0+1)
 	}
 	return err
 }
